@@ -181,6 +181,15 @@ def _mentions(f: Fact, names: set[str]) -> bool:
     return any(_idents(a) & names for a in f.args)
 
 
+def last_cond_facts(path: Path) -> list[Fact]:
+    """Facts (incl. the copy-propagated forms) of the last branch test on the path."""
+    idx = max((i for i, s in enumerate(path.steps) if s.kind == "cond"), default=-1)
+    if idx < 0:
+        return []
+    n_before = len(path_facts(path, idx, versioned=False))
+    return path_facts(path, idx + 1, versioned=False)[n_before:]
+
+
 def path_facts(path: Path, upto: int | None = None, versioned: bool | str = True) -> list[Fact]:
     """Facts established along the path.
 
@@ -194,20 +203,74 @@ def path_facts(path: Path, upto: int | None = None, versioned: bool | str = True
     out: list[Fact] = []
     entry: list[Fact] = []
     rebound: set[str] = set()
+    defs: dict[str, ast.expr] = {}  # single-name locals -> the expression they currently stand for
     steps = path.steps if upto is None else path.steps[:upto]
     for s in steps:
         bound = _binds(s)
         if versioned and bound:
             out = [f for f in out if not _mentions(f, bound)]
         new = step_facts(s)
+        # the same test with locals replaced by what they are bound to (``x = a - b; if x:`` is ``if a - b:``)
+        if s.kind == "cond" and defs:
+            sub = _substitute(s.node, defs)
+            if sub is not None:
+                seen = {str(f) for f in new}
+                for f in facts_of(sub, s.value):
+                    if str(f) not in seen:
+                        new.append(f)
         out.extend(new)
         if versioned == "entry+current":
             entry.extend(f for f in new if not _mentions(f, rebound))
         rebound |= bound
+        # maintain the definitions
+        if bound:
+            for k in list(defs):
+                if k in bound or (_idents(src(defs[k])) & bound):
+                    del defs[k]
+        n = s.node
+        if s.kind == "stmt":
+            if isinstance(n, ast.Assign) and len(n.targets) == 1 and isinstance(n.targets[0], ast.Name):
+                if n.targets[0].id not in _idents(src(n.value)):
+                    defs[n.targets[0].id] = n.value
+            elif isinstance(n, ast.AnnAssign) and isinstance(n.target, ast.Name) and n.value is not None:
+                defs[n.target.id] = n.value
+        if s.kind in ("stmt", "cond") and not isinstance(n, ast.match_case):
+            for w in ast.walk(n):
+                if isinstance(w, ast.NamedExpr) and isinstance(w.target, ast.Name):
+                    defs[w.target.id] = w.value
     if versioned == "entry+current":
-        seen = {id(f) for f in out}
-        out = out + [f for f in entry if id(f) not in seen]
+        seen_ids = {id(f) for f in out}
+        out = out + [f for f in entry if id(f) not in seen_ids]
     return out
+
+
+def _substitute(node: ast.AST, defs: dict[str, ast.expr], depth: int = 3) -> ast.expr | None:
+    """``node`` with locals replaced by their defining expressions; None if nothing to replace."""
+    import copy
+
+    hit = False
+
+    class S(ast.NodeTransformer):
+        def visit_Name(self, n):  # noqa: N802
+            nonlocal hit
+            if isinstance(n.ctx, ast.Load) and n.id in defs:
+                hit = True
+                return copy.deepcopy(defs[n.id])
+            return n
+
+        def visit_NamedExpr(self, n):  # noqa: N802
+            n.value = self.visit(n.value)
+            return n
+
+    cur = copy.deepcopy(node)
+    for _ in range(depth):
+        hit = False
+        cur = S().visit(cur)
+        if not hit:
+            break
+    if src(cur) == src(node):
+        return None
+    return cur  # type: ignore[return-value]
 
 
 def has_fact(facts: list[Fact], kind: str, args: tuple[str, ...] | None = None, polarity: bool | None = None) -> bool:
